@@ -363,7 +363,8 @@ def recipes():
             p = J(o, "gr.csv") if out else None
             res = m_gr.gr(sn, ppp=ppp, rdelta=w, outputfile=p).getresults()
             return res, ({p: res.values} if out else {})
-        return dict(name="gr.getresults", par=(d, w, out), thunk=thunk)
+        return dict(name="gr.getresults", par=(d, w, out), thunk=thunk, make=lambda: m_gr.gr(sn, ppp=ppp, rdelta=w, outputfile=None),
+                    call=lambda b, o, meth=None: (b.getresults(), {}), methods=["getresults"])
 
     @reg
     def r_sq(S, rng):
@@ -379,7 +380,9 @@ def recipes():
             kw = dict(qrange=6.0, onlypositive=onlypos) if mode == "qrange" else dict(qvector=qi)
             res = m_sq.sq(sn, saveqvectors=savq, outputfile=p, **kw).getresults()
             return res, ({p: res.values} if out else {})
-        return dict(name="sq.getresults", par=(d, mode, out, savq, onlypos), thunk=thunk)
+        return dict(name="sq.getresults", par=(d, mode, out, savq, onlypos), thunk=thunk,
+                    make=lambda: m_sq.sq(sn, **(dict(qrange=6.0, onlypositive=onlypos) if mode == "qrange" else dict(qvector=qi))),
+                    call=lambda b, o, meth=None: (b.getresults(), {}), methods=["getresults"])
 
     @reg
     def r_cgr(S, rng):
@@ -741,16 +744,18 @@ def recipes():
         nl = nb_file(S, d, "nn") if cage else ""
         cond = (S.pool[f"bool{d}"][0] if klass == "LogDynamics" else S.pool[f"bool{d}"]) if sel else None
 
-        def thunk(o):
+        def make():
             kw = dict(dt=0.002, ppp=ppp, diameters=diam, a=0.3, cal_type="slow" if slow else "fast", neighborfile=nl, max_neighbors=30)
             if mode in ("xu", "both"):
                 kw["xu_snapshots"] = xu
             if mode in ("x", "both"):
                 kw["x_snapshots"] = x
-            obj = getattr(m_dyn, klass)(**kw)
+            return getattr(m_dyn, klass)(**kw)
+
+        def call(obj, o, meth=meth):
             p = J(o, "dyn.csv") if out else ""
-            if meth == "relaxation":
-                r = obj.relaxation(qconst=6.0, condition=cond, outputfile=p)
+            if meth.startswith("relaxation"):
+                r = obj.relaxation(qconst=6.0 if meth == "relaxation" else 4.5, condition=cond, outputfile=p)
             else:
                 try:
                     r = obj.sq4(t=0.2, qrange=6.0, condition=cond, outputfile=p)
@@ -758,7 +763,11 @@ def recipes():
                     # an origin with an empty mobile / immobile subset: S4 undefined, outside the domain (DESIGN C06, R5)
                     return "undefined: empty mobility subset", {}
             return r, ({p: r.values} if out else {})
-        return dict(name=f"{klass}.{meth}", par=(d, mode, slow, cage, sel, out), thunk=thunk)
+
+        def thunk(o):
+            return call(make(), o)
+        return dict(name=f"{klass}.{meth}", par=(d, mode, slow, cage, sel, out), thunk=thunk, make=make, call=call,
+                    methods=["relaxation", "relaxation_other_q"] + (["sq4"] if klass == "Dynamics" else []))
 
     @reg
     def r_timecorr(S, rng):
